@@ -13,9 +13,11 @@ def run(ctx):
         raise vlib.CheckError("harness does not build against /repo:\n" + out[-3000:])
     quick = ctx.tier == "quick"
     runs = [("basic", "mem", 600 if quick else 6000, "core_failures"),
-            ("all", "mem", 900 if quick else 12000, "failures"),
-            ("all", "db:1", 300 if quick else 3000, "failures"),
-            ("all", "db:64", 300 if quick else 3000, "failures"),
+            ("layered", "mem", 700 if quick else 10000, "failures"),
+            ("layered", "db:1", 250 if quick else 3000, "failures"),
+            ("all", "mem", 500 if quick else 8000, "graded_failures"),
+            ("all", "db:1", 200 if quick else 3000, "graded_failures"),
+            ("all", "db:64", 200 if quick else 3000, "graded_failures"),
             # structured generator for the transitive-firewall-callee bookkeeping (value-neutral
             # switches between firewalls, tops repaired in different orders)
             ("tfc", "mem", 500 if quick else 8000, "failures"),
@@ -66,7 +68,8 @@ def run(ctx):
     cov = vlib.proof_coverage(info, "./check C01 (make closure of Properties/C01.vo; coqc Properties/C01.v; engine hist; coqc cases)", TB)
     cov.update({"traces_validated_against_impl": total, "evaluations": hist_total, "distinct_nontrivial": total,
                 "rule": "one case = one random program (<= 10 executable queries of the kinds listed) with a random history (sessions incl. unchanged writes and reverts, refreshes, world changes, queries, restarts on db-backed configs); every case is judged by the from-scratch oracle on the real engine and replayed on the Coq model (answers, SetInputResults, multiset of executions per op, dirtied statistic where deterministic); distinct by construction (one PRNG stream)",
-                "samples": samples, "input_distribution": dists, "disagreements_checked": len(dis_all)})
+                "samples": samples, "input_distribution": dists, "disagreements_checked": len(dis_all),
+                "schedule_dependent_cases": ec.SCHEDULE_DEPENDENT})
     return ctx.finish("proof", cov, TB)
 
 def replay(ctx, path):
